@@ -39,7 +39,8 @@ def run(chk, crate="rssl_hlsl", P="C01"):
     rule_lit(chk, crate, P)
     if crate == "rssl_hlsl":
         rule_intrinsic(chk, P)
-    rule_swizzle(chk, crate, P)
+    if not rule_swizzle_eval(chk, crate, P):
+        rule_swizzle(chk, crate, P)
     rule_order(chk, crate, P)
     import c04
     c04.rule_decl_refix(chk, prefix=P + ".decl", crate=crate)
@@ -782,6 +783,15 @@ def order_inventory(f, crate):
             if n in REORDER and any(x in fn for x in ("iter", "slice", "vec::Vec", "Vec::<")):
                 if n == "insert" and "Vec" not in fn:
                     continue
+                # an adapter on a generator (repeat_with(..).take(n), (0..n).rev(), once(..)) does not touch an emitted sequence
+                root = c
+                while isinstance(root, dict) and root.get("k") == "Call" and root.get("args"):
+                    nxt = F.strip(root["args"][0])
+                    if not (isinstance(nxt, dict) and nxt.get("k") == "Call"):
+                        break
+                    root = nxt
+                if short(root.get("fn") or "") in ("repeat_with", "repeat", "repeat_n", "once", "empty", "from_fn", "successors"):
+                    continue
                 inv[n] = inv.get(n, 0) + 1
                 where_.setdefault(n, []).append(owner)
     return inv, where_
@@ -799,7 +809,9 @@ def rule_order(chk, crate, P):
         # reversals, splits and sorts come in matched pairs with the code that relies on them: both directions count.
         # insert / retain / skip-like operations are judged one way only: a new one can drop or displace an element, a
         # removed one means the sequence is now built another way (that construction is read by the shape rules)
-        ok = got == want if (key.startswith(("rev", "split", "sort", "reverse"))) else got <= want
+        # (a count that went DOWN is not reported: a loop rewritten without the adapter cannot be told from a dropped
+        # adapter by counting; what the rewritten function computes is the business of the evaluated tables)
+        ok = got <= want
         chk.ob(P + ".order/%s/%s" % (cn, key), ok,
                "%d x %s: %s" % (got, key, why) if ok else
                ("%s now has %d `%s` operation(s) on sequences (reviewed: %d) in %s: elements of an emitted sequence can be skipped or reordered"
@@ -951,6 +963,44 @@ def rule_intrinsic(chk, P):
 
 
 # ------------------------------------------------------------------ swizzles
+
+def rule_swizzle_eval(chk, crate, P):
+    """Swizzles and matrix swizzles by evaluation. HLSL: the expression fixpoint table (c04.rule_refix: export, then
+    re-elaborate, gives the same node) under this property's keys. MSL: every swizzle the Metal exporter accepts is
+    written exactly as the HLSL exporter writes it (sibling agreement on the typed-expression model). True when readable."""
+    import c04
+    if crate == "rssl_hlsl":
+        return c04.rule_refix(chk, prefix=P + ".refix")
+    import elabmodel as EM
+    import exportmodel as XM
+    f = chk.facts
+    h, m = XM.RoundTrip(f, "rssl_hlsl"), XM.RoundTrip(f, crate)
+    if not (h.gen and m.gen):
+        return False
+    el = h.el
+    bad = None
+    n = 0
+    for t in ("Float322", "Float324", "Int323", "Float322x2", "Int324x4"):      # (a swizzle of a scalar is lowered differently in Metal: `s.x` is `s`)
+        if t not in el.u.names:
+            continue
+        for sw in ("x", "y", "xy", "yx", "xx", "zyx", "xyzw", "wzyx", "rgba", "bgr", "_m00", "_m01", "_m10", "_m01_m10", "_11_22"):
+            comp = el.ety(t, 0, "Lvalue")
+            r = el.run_expr(I.Enum("Expression", "Member", {"0": EM.located("L"), "1": EM.member_path(sw)}), {"L": comp})
+            if r[0] == "unreadable":
+                return False
+            if r[0] != "Ok":
+                continue
+            a, b = h.export(r[1], {"L": comp}), m.export(r[1], {"L": comp})
+            if a[0] == "unreadable" or b[0] == "unreadable":
+                continue        # (scalar swizzles take a Metal-only path through the constructor helpers: not part of this table)
+            n += 1
+            if a[0] == "Ok" and b[0] == "Ok" and a[1] != b[1] and not bad:
+                bad = "%s.%s is written differently by the two exporters (HLSL: %s, MSL: %s): the Metal text selects other components" % (t, sw, el.show(a[1])[:80], el.show(b[1])[:80])
+            elif b[0] == "aborts" and not bad:
+                bad = "exporting %s.%s to MSL aborts (%s)" % (t, sw, b[1])
+    chk.ob(P + ".swz/sibling", bad is None, bad or "%d member accesses: wherever the Metal exporter accepts one it writes what the HLSL exporter writes" % n, where(m.gen), sample={"accesses": n})
+    return n >= 8
+
 
 def rule_swizzle(chk, crate, P):
     f = chk.facts
